@@ -80,8 +80,12 @@ func loadKnown() {
 		el, err := openpgp.ReadKeyRing(f)
 		f.Close()
 		if err == nil && len(el) > 0 {
-			if arm, err := jsonsign.ArmoredPublicKey(el[0]); err == nil {
-				add(&knownBlob{content: arm, maxKind: 1, pub: el[0].PrimaryKey, name: "pubonly"})
+			var buf bytes.Buffer
+			if wc, err := armor.Encode(&buf, openpgp.PublicKeyType, nil); err == nil {
+				el[0].PrimaryKey.Serialize(wc)
+				wc.Close()
+				buf.WriteByte('\n')
+				add(&knownBlob{content: buf.String(), maxKind: 1, pub: el[0].PrimaryKey, name: "pubonly"})
 			}
 		}
 	}
